@@ -58,6 +58,7 @@ var vfG3 struct {
 	keys      []vfKeyRowG
 	pointer   int64
 	pointerOK bool
+	maxKeys   uint64 // MaxNumKeysPerMessage, the same on every node
 }
 
 // fake transport capturing what the middleware hands to libp2p
@@ -198,9 +199,12 @@ func vfG3Setup(n int) {
 	g.eon, g.instance, g.eonPK = vfU64("eon"), vfU64("instance"), vfU64("eonpk")
 	vfAssume(g.eon < 1<<31)
 	g.sigs, g.keys, g.trigger = nil, nil, nil
+	g.maxKeys = vfU64("max-keys-per-message")
+	vfAssume(g.maxKeys >= 1 && g.maxKeys <= 4)
 }
 
 func vfIdentities(k int) []identitypreimage.IdentityPreimage {
+	vfAssume(uint64(k) <= vfG3.maxKeys) // honest triggers stay within the configured message size
 	var ids []identitypreimage.IdentityPreimage
 	for i := 0; i < k; i++ {
 		id := identitypreimage.IdentityPreimage(vfBytesN("identity", 52))
@@ -241,7 +245,7 @@ func vfGnosisConfig(keyTag uint64) *gnosis.Config {
 			SecondsPerSlot:       vfU64("seconds-per-slot"),
 			GenesisSlotTimestamp: vfU64("genesis-slot-timestamp"),
 		},
-		MaxNumKeysPerMessage: 4,
+		MaxNumKeysPerMessage: vfG3.maxKeys,
 	}
 }
 
@@ -292,7 +296,7 @@ type vfCoreCfg struct{ addr common.Address }
 
 func (c vfCoreCfg) GetAddress() common.Address      { return c.addr }
 func (c vfCoreCfg) GetInstanceID() uint64           { return vfG3.instance }
-func (c vfCoreCfg) GetMaxNumKeysPerMessage() uint64 { return 4 }
+func (c vfCoreCfg) GetMaxNumKeysPerMessage() uint64 { return vfG3.maxKeys }
 
 //verif:stub (*github.com/shutter-network/rolling-shutter/rolling-shutter/keyper/database.Queries).GetBatchConfig sql=getBatchConfig
 func vfStubBatchConfigG3(q *corekeyperdatabase.Queries, ctx context.Context, idx int32) (corekeyperdatabase.TendermintBatchConfig, error) {
@@ -379,7 +383,7 @@ func vfAllAccept(m p2pmsg.Message) {
 	st := NewStorage()
 	st.AddEonKey(g.eon, vfTagged[shcrypto.EonPublicKey](g.eonPK))
 	st.AddKeyperSet(g.eon, &obskeyperdatabase.KeyperSet{KeyperConfigIndex: int64(g.eon), Keypers: shdb.EncodeAddresses(g.keypers), Threshold: g.threshold})
-	an := NewDecryptionKeysHandler(&Config{InstanceID: g.instance, MaxNumKeysPerMessage: 4}, st)
+	an := NewDecryptionKeysHandler(&Config{InstanceID: g.instance, MaxNumKeysPerMessage: g.maxKeys}, st)
 	res, err = an.ValidateMessage(context.Background(), km)
 	vfAssert(res == pubsub.ValidationAccept && err == nil, "keys-accepted-by-access-node")
 }
